@@ -161,3 +161,11 @@ func VerifSetRefreshTimers(freq, minRate time.Duration) (time.Duration, time.Dur
 	slotsRefFreq, slotsRefMinRate = freq, minRate
 	return f, m
 }
+
+// VerifSetRefreshTimeout replaces the time after which a round of the slot refresh
+// gives up waiting for an answer (package variable) and returns the previous value.
+func VerifSetRefreshTimeout(d time.Duration) time.Duration {
+	old := slotsRefTimeout
+	slotsRefTimeout = d
+	return old
+}
